@@ -982,3 +982,91 @@ Theorem receive_app_reachable cfg history a b v1 ra r :
   (ra <> [] -> receive cfg v (a ++ b) = (v1, ra ++ b, r)) /\
   (ra = [] -> r = RX_INCOMPLETE -> rc_valid (rv_chunk v1) = false -> receive cfg v (a ++ b) = receive cfg v1 b).
 Proof. intros v. apply receive_app. exact (feed_ok cfg history _ (rv_ok_init cfg)). Qed.
+
+(* ---- the read loop ---- *)
+Lemma rx_loop_more_fuel cfg : forall n v buf v' e c, rx_loop n cfg v buf = (v', e, c, false) ->
+  forall k, rx_loop (n + k) cfg v buf = (v', e, c, false).
+Proof.
+  induction n as [|n IH]; intros v buf v' e c H k.
+  - destruct buf; cbn [rx_loop] in H; [|inversion H]. inversion H; subst. destruct (0 + k)%nat; reflexivity.
+  - destruct buf as [|d t]; [cbn [rx_loop] in H |- *; exact H|].
+    cbn [Nat.add rx_loop] in H |- *. destruct (receive cfg v (d :: t)) as [[w rest] r].
+    destruct (dispatch_rx cfg w r) as [w2 evs].
+    destruct r; try exact H;
+      (destruct (rx_loop n cfg w2 rest) as [[[v3 e3] c3] o3] eqn:El; inversion H; subst;
+       rewrite (IH _ _ _ _ _ El k); reflexivity).
+Qed.
+
+Lemma rx_loop_calls_nonempty cfg n v x t v' e : rx_loop n cfg v (x :: t) = (v', e, [], false) -> False.
+Proof.
+  destruct n; cbn [rx_loop]; [intros H; inversion H|].
+  destruct (receive cfg v (x :: t)) as [[w rest] r]. destruct (dispatch_rx cfg w r) as [w2 evs].
+  destruct r; try (intros H; inversion H; fail); destruct (rx_loop n cfg w2 rest) as [[[a1 a2] a3] a4]; intros H; inversion H.
+Qed.
+
+Definition ends_incomplete (calls : list (rx * N)) : Prop :=
+  exists pre n, calls = pre ++ [(RX_INCOMPLETE, n)].
+Definition no_reject (calls : list (rx * N)) : Prop :=
+  forall r n, In (r, n) calls -> r <> RX_INVALID /\ r <> RX_UB.
+
+(* a read that ends in the middle of a message: the loop over a ++ b does what the loop over a followed by the loop
+   over b does - same deliveries in the same order, same final state *)
+Theorem rx_loop_cut_mid_message cfg : forall n v a b v1 e1 c1 m v2 e2 c2,
+  rv_ok v ->
+  rx_loop n cfg v a = (v1, e1, c1, false) -> ends_incomplete c1 -> no_reject c1 -> rc_valid (rv_chunk v1) = false ->
+  rx_loop m cfg v1 b = (v2, e2, c2, false) ->
+  exists c, rx_loop (n + m) cfg v (a ++ b) = (v2, e1 ++ e2, c, false).
+Proof.
+  induction n as [|n IH]; intros v a b v1 e1 c1 m v2 e2 c2 Hok Ha Hend Hnr Hcv Hb.
+  - destruct a; cbn [rx_loop] in Ha; inversion Ha; subst. destruct Hend as [pre [k E]]. destruct pre; discriminate.
+  - destruct a as [|d t].
+    { cbn [rx_loop] in Ha. inversion Ha; subst. destruct Hend as [pre [k E]]. destruct pre; discriminate. }
+    pose proof Ha as Ha0.
+    cbn [rx_loop] in Ha. destruct (receive cfg v (d :: t)) as [[w rest] r] eqn:Er.
+    pose proof (receive_ok _ _ _ _ _ _ Hok Er) as Hw.
+    destruct (receive_app cfg v (d :: t) b w rest r Hok Er) as [G1 G2].
+    pose proof (dispatch_ok cfg w r Hw) as Hw2.
+    destruct (dispatch_rx cfg w r) as [w2 evs] eqn:Ed. cbn [fst] in Hw2.
+    assert (Hr : r <> RX_INVALID /\ r <> RX_UB).
+    { destruct r; try (split; discriminate); exfalso; inversion Ha; subst;
+        (destruct (Hnr _ _ (or_introl eq_refl)) as [X Y]; congruence). }
+    destruct Hr as [Hr1 Hr2].
+    assert (Hrec : exists v3 e3 c3, rx_loop n cfg w2 rest = (v3, e3, c3, false) /\ v1 = v3 /\ e1 = evs ++ e3 /\
+                   c1 = (r, nlen (d :: t) - nlen rest) :: c3).
+    { destruct (rx_loop n cfg w2 rest) as [[[v3 e3] c3] o3] eqn:El.
+      destruct r; try congruence; inversion Ha; subst; eexists _, _, _; repeat split; reflexivity. }
+    destruct Hrec as [v3 [e3 [c3 [El [Ev [Ee Ec]]]]]]. subst v1 e1 c1.
+    destruct rest as [|x rest'].
+    + (* the call consumed the rest of the read *)
+      assert (Hc3 : v3 = w2 /\ e3 = [] /\ c3 = []) by (destruct n; cbn [rx_loop] in El; inversion El; auto).
+      destruct Hc3 as [-> [-> ->]].
+      destruct Hend as [pre [k E]]. assert (r = RX_INCOMPLETE).
+      { destruct pre as [|p pre']; [inversion E; reflexivity|]. inversion E. destruct pre'; discriminate. }
+      subst r. cbn [dispatch_rx] in Ed. inversion Ed; subst. clear Ed.
+      rewrite app_nil_r. cbn [app].
+      destruct b as [|y b'].
+      * cbn [rx_loop] in Hb. destruct m; cbn [rx_loop] in Hb; inversion Hb; subst;
+          rewrite app_nil_r; eexists; apply (rx_loop_more_fuel cfg (S n) v (d :: t) _ _ _ Ha0).
+      * destruct m as [|m]; [cbn [rx_loop] in Hb; inversion Hb|].
+        replace (S n + S m)%nat with (S (m + S n))%nat by lia.
+        change ((d :: t) ++ y :: b') with (d :: (t ++ y :: b')). cbn [rx_loop].
+        change (d :: t ++ y :: b') with ((d :: t) ++ y :: b'). rewrite (G2 eq_refl eq_refl Hcv).
+        cbn [rx_loop] in Hb. destruct (receive cfg w2 (y :: b')) as [[w' rest'] r'] eqn:Er'.
+        destruct (dispatch_rx cfg w' r') as [w2' evs'].
+        assert (Hnl : nlen ((d :: t) ++ y :: b') - nlen rest' = nlen ((d :: t) ++ y :: b') - nlen rest') by reflexivity.
+        destruct r'; try (inversion Hb; subst; eexists; reflexivity);
+          (destruct (rx_loop m cfg w2' rest') as [[[v4 e4] c4] o4] eqn:El4; inversion Hb; subst;
+           rewrite (rx_loop_more_fuel cfg m _ _ _ _ _ El4 (S n)); eexists; reflexivity).
+    + (* the call left bytes of this read unread: it does not see b *)
+      assert (Hne : x :: rest' <> []) by discriminate.
+      assert (Hend3 : ends_incomplete c3).
+      { destruct Hend as [pre [k E]]. destruct pre as [|p pre'].
+        - inversion E; subst. exfalso. exact (rx_loop_calls_nonempty _ _ _ _ _ _ _ El).
+        - inversion E; subst. exists pre', k. reflexivity. }
+      assert (Hnr3 : no_reject c3) by (intros r0 n0 Hin; apply (Hnr r0 n0); right; exact Hin).
+      destruct (IH w2 (x :: rest') b v3 e3 c3 m v2 e2 c2 Hw2 El Hend3 Hnr3 Hcv Hb) as [c Hc].
+      change ((d :: t) ++ b) with (d :: (t ++ b)). cbn [Nat.add rx_loop].
+      change (d :: t ++ b) with ((d :: t) ++ b). rewrite (G1 Hne), Ed.
+      exists ((r, nlen ((d :: t) ++ b) - nlen ((x :: rest') ++ b)) :: c).
+      destruct r; try congruence; rewrite Hc, <- app_assoc; reflexivity.
+Qed.
